@@ -113,8 +113,9 @@ def drive(ctx, dump, rng, hdr, sf, table, strings, root, tag, k):
         for fmt in ("bmc", "old"):
             render = im.render_bmc if fmt == "bmc" else im.render_old
             lines = render(d, lower=rng.random() < 0.3, strip=rng.random() < 0.3)
-            if rng.random() < 0.3:
-                lines = ["# IO drawer dump", ""] + lines + ["", "-- end --"]
+            if rng.random() < 0.4:
+                banner = ["# IO drawer dump", "", "Collected by: tool x", "-----", "  ", "note: see below"]
+                lines = [rng.choice(banner) for _ in range(rng.choice([1, 2, 5, 16, 17, 40]))] + lines + ["", "-- end --"]
             path = os.path.join(root, "dump_%s.txt" % fmt)
             with open(path, "w") as f:
                 f.write("\n".join(lines) + "\n")
